@@ -28,6 +28,7 @@ FIRED=""
 for c in C01 C02 C03 C04 C05 C06 C07 C08 C09 C10 C11 C12 C13 C14 C15 C16 C17 C18 C19 C20; do
   r=$(AIS_REPO=$TMP timeout 900 /verif/bin/check $c quick 2>&1)
   if echo "$r" | grep -q "^VIOLATION property=$c"; then k=$(echo "$r" | grep -m1 "key=" | sed 's/^ *key=//' | cut -c1-200); FIRED="$FIRED $c"; echo "  $c FALSE-ALARM? $k"; fi
+  if echo "$r" | grep -q "facts-unavailable\|internal-error"; then echo "  $c BROKEN (facts unavailable / analyser error)"; fi
 done
 echo "fired:$FIRED"
 python3 - "$OUT" "$t1" "$t2" "$t3" "$FIRED" <<'PY'
